@@ -224,7 +224,7 @@ check("C04",
       "is linear in the register difference; two equal-length byte strings differing only inside four consecutive "
       "bytes (every single-bit flip, every burst <=32 bits) have different CRC-32 from every start value; hence a "
       "CRC-verified region (start header, raw next header, stored member) that verified pristine is rejected after "
-      "such damage; block-wise accumulation = CRC of the concatenation. Tied by the crc stream (zlib.crc32, "
+      "such damage; block-wise accumulation = CRC of the concatenation for every list of blocks (crc32_chunked), so the rejection holds under every blocking of the reads (chunked_verify_rejects_burst). Tied by the crc stream (zlib.crc32, "
       "calculate_crc32 with several block sizes). Beyond that detection is probabilistic and is explored: all single-bit "
       "flips of small archives, overwrites, every truncation, bursts, block swaps, insert/remove/extend over py7zr and "
       "reference-writer archives (incl. a CRC-0 member, folder-CRC-only layout, AES, multi-folder); extraction outcome "
